@@ -781,6 +781,7 @@ impl<'a> Gen<'a> {
                     Some(k) if self.r.chance(3, 4) => format!("JOIN {} {}", ch, k),
                     Some(_) if self.r.chance(1, 2) => format!("JOIN {} wrongkey", ch),
                     None if self.r.chance(1, 10) => format!("JOIN {} somekey", ch),
+                    None if self.r.chance(1, 12) => format!("JOIN {} :", ch),
                     _ => format!("JOIN {}", ch),
                 };
                 self.say(c, &line)
@@ -806,6 +807,12 @@ impl<'a> Gen<'a> {
                         Some(k) => k,
                         None => "x".to_string(),
                     })
+                    .collect();
+                // channels without a key may get an empty key (also in the last position: "k1,")
+                let keys: Vec<String> = chs
+                    .iter()
+                    .zip(keys.into_iter())
+                    .map(|(ch, k)| if self.m.chans.get(ch).and_then(|c| c.key.clone()).is_none() && self.r.chance(1, 3) { String::new() } else { k })
                     .collect();
                 let line = if with_keys { format!("JOIN {} {}", chs.join(","), keys.join(",")) } else { format!("JOIN {}", chs.join(",")) };
                 self.say(c, &line)
@@ -1156,7 +1163,7 @@ impl<'a> Gen<'a> {
                 let n = match self.r.below(8) {
                     0 => me.clone(),
                     1 | 2 => self.pick_user(),
-                    3 => ["bad.nick", "#chan", "a,b"][self.r.below(3)].to_string(),
+                    3 => ["bad.nick", "#chan", "a,b", ".luke", ",luke", "::luke", "lu:ke", "luke.", "&amp", "l,"][self.r.below(10)].to_string(),
                     _ => self.free_nick(),
                 };
                 self.say(c, &format!("NICK {}", n))
